@@ -1103,6 +1103,18 @@ class Client():
                 self.respondent.error = str(ex)
                 self.respondent.ended = True
 
+            if (not self.respondent.ended and not self.respondent.evented
+                    and self.respondent.closed and self.connector.cutoff
+                    and not self.connector.txbs):
+                # request was sent and parser was given all that got received
+                # before the far side closed yet still waits for more so the
+                # response can never complete
+                self.respondent.errored = True
+                self.respondent.error = ("Connection closed unexpectedly"
+                                         " before response completed")
+                self.respondent.ended = True
+                self.respondent.started = False
+
             if self.respondent.ended:
                 self.respondent.dictify()
 
